@@ -406,7 +406,7 @@ def check_object_state(facts, run, eff, cg, entries):
                 continue
             callers = []
             for ok, key, why in check_memo_table(facts, run, writers[0], fld, [(e, None) for e in entries]):
-                run.inst("C13.P4", "memo:%s:%s" % (fld, key), ok, why, where(facts.fns[writers[0]]["span"]))
+                run.inst("C13.X1" if key == "table-holds-every-slot" else "C13.P4", "memo:%s:%s" % (fld, key), ok, why, where(facts.fns[writers[0]]["span"]))
             # who may read: only the getter (and constructors)
             readers = set()
             for p, f in facts.fns.items():
@@ -597,6 +597,39 @@ def _peel_copy(t):
     return t
 
 
+def _table_length(facts, fld):
+    """N when some function of the crate builds the struct with `fld: vec![x; N]` for a constant N, else None"""
+    found = set()
+    for p2, f2 in facts.fns.items():
+        if f2["kind"] not in ("Fn", "AssocFn"):
+            continue
+        hit = False
+        for b2 in f2["blocks"]:
+            for st2 in b2["stmts"]:
+                rv2 = st2.get("rv") or {}
+                if st2["k"] == "assign" and rv2.get("k") == "aggregate" and fld in (rv2.get("fields") or []):
+                    hit = True
+        if not hit:
+            continue
+        ft2 = fn_terms(facts, p2)
+        for b2 in sorted(ft2.cfg.reach):
+            for i2, st2 in enumerate(ft2.blocks[b2]["stmts"]):
+                rv2 = st2.get("rv") or {}
+                if st2["k"] == "assign" and rv2.get("k") == "aggregate" and fld in (rv2.get("fields") or []):
+                    t2 = ft2.rvalue(rv2, b2, i2)
+                    if t2[0] != "agg" or len(t2) < 5 or fld not in t2[4]:
+                        return None
+                    v2 = _peel_copy(t2[3][list(t2[4]).index(fld)])
+                    if v2[0] == "call" and isinstance(v2[1], str) and v2[1].endswith("from_elem") and len(v2[2]) == 2:
+                        n2 = const_int(v2[2][1])
+                        if n2 is None:
+                            return None
+                        found.add(n2)
+                    else:
+                        return None
+    return found.pop() if len(found) == 1 else None
+
+
 def check_memo_table(facts, run, getter, fld, entries):
     """list of (ok, key, reason) for the memo table `fld` maintained by `getter`"""
     out = []
@@ -646,6 +679,7 @@ def check_memo_table(facts, run, getter, fld, entries):
         out.append((False, "key-domain", "the getter is not reached from any entry point - nothing to enumerate"))
         return out
     nkeys = 0
+    top_slot = None
     collisions = []
     dom_desc = []
     # a key component may be a row of the table of faces handed over by reference: rows are identified by their position
@@ -719,6 +753,10 @@ def check_memo_table(facts, run, getter, fld, entries):
                 out.append((False, "key-domain", "slot index is not a function of the key alone (%s)" % e))
                 return out
             nkeys += 1
+            # keys of the real domain (12 faces, 10 triangles per face), whatever intervals the calling contexts carry
+            if isinstance(idx, int) and all(v < (12 if ft.fn["locals"][i]["ty"] == "u8" else 10 if ft.fn["locals"][i]["ty"] == "usize" else 1 << 30)
+                                            for (i, _lo, _hi), v in zip(params, combo) if i not in row_params):
+                top_slot = idx if top_slot is None else max(top_slot, idx)
             vt = _subst_env(deep_resolve(ft, value, assume), env)
             slots.setdefault(idx, {}).setdefault(strip_site(vt), []).append(combo)
         for idx, vs in slots.items():
@@ -728,6 +766,14 @@ def check_memo_table(facts, run, getter, fld, entries):
                 "slot index enumerated on %d admissible keys over %d calling context(s) [%s]: %s" % (
                     nkeys, len(ctxs), "; ".join(sorted(set(dom_desc)))[:160],
                     "distinct value-relevant keys never share a slot" if not collisions else "keys %s share slot %d but store different values" % (collisions[0][1], collisions[0][0]))))
+    # the table has a slot for every key: its length, where the constructor gives it as a constant (`vec![None; N]`),
+    # exceeds the largest slot index of the real key domain.  (A table one slot short turns the last key away at the
+    # bounds guard: an Err for one triangle of one face.)  Other ways of sizing the table are not judged.
+    n_slots = _table_length(facts, fld)
+    if n_slots is not None and top_slot is not None:
+        out.append((n_slots > top_slot, "table-holds-every-slot", "the table is built with %d slots; the largest slot index over faces 0..11 x triangles 0..9 x flags is %d" % (n_slots, top_slot)))
+    else:
+        out.append((True, "table-holds-every-slot", "not judged: the table length is not a constant given where the struct is built (length %s, largest slot %s)" % (n_slots, top_slot)))
     # key-only value: what the value computation can read
     leaves_ok = True
     bad_leaf = None
